@@ -242,7 +242,10 @@ func buildC05(s *c05Sched) *flamego.Flame {
 	f.Before(func(http.ResponseWriter, *http.Request) bool { return false })
 	// a request-scoped logger (the usual request-id pattern) is mapped before the request logger runs: every line
 	// the request logger writes for a request carries that request's id
-	f.Use(func(c flamego.Context, l *log.Logger) { c.Map(l.With("rid", c.Request().Header.Get("X-Tok"))) })
+	if s.log != nil {
+		// (only on instances whose log is collected: deriving a logger takes the logger's lock and staggers requests)
+		f.Use(func(c flamego.Context, l *log.Logger) { c.Map(l.With("rid", c.Request().Header.Get("X-Tok"))) })
+	}
 	f.Use(flamego.Logger(), flamego.Recovery(), flamego.Renderer(flamego.RenderOptions{JSONIndent: " "}))
 	f.Use(flamego.Static(flamego.StaticOptions{Directory: c05Dir, Prefix: "assets", SetETag: true, Expires: func() string { return "EXP" }}))
 	f.Use(func(c flamego.Context) {
@@ -429,7 +432,12 @@ func runC05Round(w *core.W, c *c05Round, st *c05Stats, salt uint64) bool {
 		}
 	}
 	// cold instance, concurrent
-	sched := &c05Sched{enabled: true, meet: make(chan struct{}), seed: uint64(w.R.Seed) + salt, log: &c05Log{}}
+	sched := &c05Sched{enabled: true, meet: make(chan struct{}), seed: uint64(w.R.Seed) + salt}
+	if c.Round%2 == 1 {
+		// collecting (and formatting) log lines serializes the requests early in the chain and staggers the cold wave;
+		// every other round logs to io.Discard so that requests reach the router truly at once
+		sched.log = &c05Log{}
+	}
 	cold := buildC05(sched)
 	got := make([]c05Resp, total)
 	var wg sync.WaitGroup
@@ -461,9 +469,12 @@ func runC05Round(w *core.W, c *c05Round, st *c05Stats, salt uint64) bool {
 	}
 	st.mu.Unlock()
 	// the request logger's lines: the id mapped for the request and the request's own address agree
-	sched.log.mu.Lock()
-	lines := strings.Split(sched.log.buf.String(), "\n")
-	sched.log.mu.Unlock()
+	var lines []string
+	if sched.log != nil {
+		sched.log.mu.Lock()
+		lines = strings.Split(sched.log.buf.String(), "\n")
+		sched.log.mu.Unlock()
+	}
 	nLines := 0
 	for _, ln := range lines {
 		rid, remote := c05Field(ln, "rid"), c05Field(ln, "remote")
@@ -645,7 +656,7 @@ func judgeHammer(w *core.W, c *hammerCase) bool {
 }
 
 func runC05(r *core.Run) {
-	r.Rule("per round one COLD instance (lazy caches unfilled) with routes of every kind (static shortcut, optional static short/long, placeholder, multi-bind regex, match-all with capture, final match-all, header-constrained, Any, named route used for URL building, JSON rendering, a panicking route behind Recovery, custom not-found chain) and Logger+Recovery+Renderer middleware; 32-64 goroutines behind a barrier, the first wave hits every route kind while cold, then few hot routes; every request carries a unique token in a header, the query, a cookie and the body, half of them also in the path - the other half use one of 400 shared path keys, so that paths repeat; an early middleware maps a request-scoped value; handlers reached through Next (fast path) and reflectively echo parameters, `route`, the injected value, a built URL and the body, with seeded yields / sleeps / pairwise rendezvous between reading and writing. Oracles: (1) Go race detector, report blocks with a framework frame counted from the log; (2) byte-for-byte equality (status, body, Content-Type, ETag, response tags) with an identically built instance that served the same requests serially, which in turn equals - for the cold wave and every 32nd request - a fresh instance that serves nothing else; (3) no foreign token in any response; (4) every line the request logger writes carries the request-scoped logger (request id) of the request it is about. Then one hammer instance: 32 goroutines x 60 000 / 300 000 requests over 700 keys and five route kinds with minimal self-describing handlers (each response names the route and parameters of the request it answers). non-trivial = distinct concurrent rounds")
+	r.Rule("per round one COLD instance (lazy caches unfilled) with routes of every kind (static shortcut, optional static short/long, placeholder, multi-bind regex, match-all with capture, final match-all, header-constrained, Any, named route used for URL building, JSON rendering, a panicking route behind Recovery, custom not-found chain) and Logger+Recovery+Renderer middleware; 84-168 goroutines behind a barrier, the first wave hits every route kind while cold, then few hot routes; every request carries a unique token in a header, the query, a cookie and the body, half of them also in the path - the other half use one of 400 shared path keys, so that paths repeat; an early middleware maps a request-scoped value; handlers reached through Next (fast path) and reflectively echo parameters, `route`, the injected value, a built URL and the body, with seeded yields / sleeps / pairwise rendezvous between reading and writing. Oracles: (1) Go race detector, report blocks with a framework frame counted from the log; (2) byte-for-byte equality (status, body, Content-Type, ETag, response tags) with an identically built instance that served the same requests serially, which in turn equals - for the cold wave and every 32nd request - a fresh instance that serves nothing else; (3) no foreign token in any response; (4) every line the request logger writes carries the request-scoped logger (request id) of the request it is about. Then one hammer instance: 32 goroutines x 60 000 / 300 000 requests over 700 keys and five route kinds with minimal self-describing handlers (each response names the route and parameters of the request it answers). non-trivial = distinct concurrent rounds")
 	r.Assume("happens-before race detection is timing independent for accesses that occur; the shadow history is bounded (4 accesses per word)")
 	r.Race = raceEnabled
 	if !raceEnabled {
@@ -670,9 +681,9 @@ func runC05(r *core.Run) {
 	defer flamego.SetEnv(orig)
 
 	rounds := r.N(30, 300)
-	gor, per := 2*len(c05Kinds), 56 // the first wave hits every kind while cold from two goroutines
+	gor, per := 4*len(c05Kinds), 28 // the first wave hits every kind while cold from four goroutines at once
 	if r.Thorough() {
-		gor, per = 4*len(c05Kinds), 110
+		gor, per = 8*len(c05Kinds), 55
 	}
 	st := &c05Stats{}
 	w := r.Serial()
@@ -732,7 +743,7 @@ func runC05(r *core.Run) {
 	}
 	r.Gate("overlapping request pairs", st.overlaps, 1000)
 	r.Gate("max in-flight requests", st.maxIn, 8)
-	r.GateCounter("request-logger-lines-checked", int64(rounds)*100)
+	r.GateCounter("request-logger-lines-checked", int64(rounds)*40)
 	r.GateCounter("compared-with-a-fresh-instance", int64(rounds)*10)
 	for _, k := range c05Kinds {
 		r.Gate("cold first-wave hits:"+k, int64(st.coldKinds[k]), 2*int64(rounds))
